@@ -529,3 +529,16 @@ func VH_C04_DecryptMessage() {
 	DecryptMessage(zzverif.Bytes(n), vhKey(int32(et), zzverif.Bytes(p.keyLen)), zzverif.Uint32())
 	zzverif.Reach("returned")
 }
+
+// VH_C07_VerifyWrongKeyLength: a key that does not have the encryption type's key length verifies nothing -
+// in particular not an empty or truncated checksum (a failed key derivation must not become an "expected
+// checksum" that an empty candidate equals).  rc4-hmac is excluded: HMAC-MD5 is defined for every key length.
+func VH_C07_VerifyWrongKeyLength() {
+	et, kl, cl := zzverif.Param("etype"), zzverif.Param("keylen"), zzverif.Param("cklen")
+	e, err := GetEtype(int32(et))
+	zzverif.Assume(err == nil && kl != e.GetKeyByteSize())
+	key, data, ck := zzverif.Bytes(kl), zzverif.Bytes(3), zzverif.Bytes(cl)
+	usage := zzverif.Uint32()
+	zzverif.Assert("wrong-length-key-never-verifies", !e.VerifyChecksum(key, data, ck, usage))
+	zzverif.Reach("done")
+}
